@@ -286,7 +286,7 @@ static coap_address_t g_dst; /* 192.0.2.1:5683 -- never spelled by any enumerate
 struct optrec {
   uint16_t num;
   uint16_t len;
-  uint8_t val[48];
+  uint8_t val[288];
 };
 #define MAXREC 40
 struct optres {
@@ -367,7 +367,7 @@ struct ctx_split {
   int ret;
   size_t outlen;
   int overrun; /* bytes behind the buffer changed (non-ASan builds; ASan aborts instead) */
-  uint8_t out[200];
+  uint8_t out[640];
 };
 #define CANARY 16
 static void
@@ -1027,7 +1027,7 @@ struct pathref {
 };
 static void
 path_reference(const uint8_t *s, size_t len, struct pathref *p) {
-  uint8_t rp[256];
+  uint8_t rp[1024];
   size_t cut = 0;
   while (cut < len && s[cut] != '?' && s[cut] != '#')
     cut++;
@@ -1067,7 +1067,7 @@ path_reference(const uint8_t *s, size_t len, struct pathref *p) {
 static void
 check_uri_optlist(const uint8_t *s, size_t len, const struct pathref *prp) {
   static struct ctx_uri c;
-  uint8_t full[64];
+  uint8_t full[800];
   char sig[160];
   memcpy(full, "coap://a:9/", 11);
   memcpy(full + 11, s, len);
@@ -1155,11 +1155,59 @@ struct space_b {
   uint64_t total;
   char name[64];
 };
+static void check_pq_string(uint64_t idx, const uint8_t *s, size_t len);
 static void
 case_b(uint64_t idx, void *arg) {
   const struct space_b *sp = arg;
   uint8_t s[16];
   size_t len = decode_string(idx, sp->alpha, sp->A, s);
+  check_pq_string(idx, s, len);
+}
+
+/* space b3: one or two long segments around the option-header size boundaries (12/13 bytes of decoded length) and the
+ * 255-byte limit of Uri-Path / Uri-Query, plain or with a percent-escape at either end, through the same checks as space b -- in particular through
+ * every output buffer size from "one more than needed" down to 0 on an exact-size heap buffer */
+static const int B3_LEN[] = {0, 1, 2, 11, 12, 13, 14, 15, 16, 100, 254, 255};
+#define B3_NLEN 12
+#define B3_NSEG (B3_NLEN * 3)
+#define B3_TOTAL ((uint64_t)B3_NSEG + 2ull * B3_NSEG * B3_NSEG)
+static size_t
+b3_segment(uint8_t *o, unsigned code) {
+  int L = B3_LEN[code % B3_NLEN], kind = (int)(code / B3_NLEN);
+  size_t n = 0;
+  for (int i = 0; i < L; i++) {
+    if ((kind == 1 && i == 0) || (kind == 2 && i == L - 1)) {
+      memcpy(o + n, "%41", 3);
+      n += 3;
+    } else
+      o[n++] = (uint8_t)('a' + i % 23);
+  }
+  return n;
+}
+static void
+case_b3(uint64_t idx, void *arg) {
+  (void)arg;
+  static uint8_t s[700];
+  size_t len;
+  if (idx < B3_NSEG)
+    len = b3_segment(s, (unsigned)idx);
+  else {
+    uint64_t x = idx - B3_NSEG;
+    int sep = (int)(x % 2);
+    x /= 2;
+    /* the string is read both as a path and as a query: joined by the other component's separator the two parts are
+     * one segment, which must still fit an option (255 bytes) */
+    if (B3_LEN[(x % B3_NSEG) % B3_NLEN] + B3_LEN[(x / B3_NSEG) % B3_NLEN] + 1 > 255)
+      return;
+    len = b3_segment(s, (unsigned)(x % B3_NSEG));
+    s[len++] = sep ? '&' : '/';
+    len += b3_segment(s + len, (unsigned)(x / B3_NSEG));
+  }
+  check_pq_string(idx, s, len);
+}
+
+static void
+check_pq_string(uint64_t idx, const uint8_t *s, size_t len) {
   case_begin(len <= 2);
 
   struct pathref pr;
@@ -1660,6 +1708,8 @@ main(int argc, char **argv) {
   for (int i = 0; i < 3; i++)
     if (vxp_replay_if_match(sb[i].name, case_b, &sb[i]) || vxp_replay_if_match(sb2[i].name, case_b, &sb2[i]))
       return 0;
+  if (vxp_replay_if_match("b3:long-segments", case_b3, NULL))
+    return 0;
   for (int i = 0; i < 2; i++) {
     if (vxp_replay_if_match(sc[i].name, case_c, &sc[i]))
       return 0;
@@ -1685,6 +1735,11 @@ main(int argc, char **argv) {
     evals += st.done;
     struct vxp_config c2 = {.space = name_a2, .total = 3ull * PORT_N + PORT_SPECIALS + SCHEME_GRID};
     vxp_enumerate(&c2, case_a2, NULL, &st);
+    evals += st.done;
+  }
+  if (!big) {
+    struct vxp_config c3 = {.space = "b3:long-segments", .total = B3_TOTAL, .chunk = 8};
+    vxp_enumerate(&c3, case_b3, NULL, &st);
     evals += st.done;
   }
   /* the cheap list space runs first so that a deadline can only cut the big string space */
@@ -1729,8 +1784,10 @@ main(int argc, char **argv) {
                    "fragment, '/', '?' or '#' inside [..], bytes outside a component's ABNF incl. non-IPv6 text in [..]) are "
                    "tolerated either way and counted (a.question.*); structural errors (unknown/missing scheme, empty host, "
                    "unterminated or empty [..], junk after ], non-numeric port, port > 65535) must be rejected");
-  vx_ev_assumption("too-small output buffer: libcoap's header says 'or -1 on error'; any non-negative return with an "
-                   "incomplete list is flagged (small-buffer-not-reported)");
+  vx_ev_assumption("too-small output buffer: a truncated result is not flagged (the statement does not ask for an error and the "
+                   "repository's tests t_parse_uri15/16 require the 0 return); checked for every buffer size from needed+1 down to 0: "
+                   "nothing is written outside the exact-size heap buffer, *buflen never exceeds it, the output is a well-formed option "
+                   "encoding; space b3 repeats this for 1-2 segments of 0,1,2,11..16,100,254,255 decoded bytes (option header size boundary, option length limit)");
   vx_ev_assumption("segment lists containing a '.' or '..' Uri-Path option (forbidden by RFC 7252 5.10.1) are exempt from the "
                    "path round trip, not from the injectivity check");
 #ifdef C16_BIG
